@@ -83,10 +83,11 @@ def ensure_generated():
     os.makedirs(d, exist_ok=True)
     # GenRdtypes.v: the table and the model's `run` (must compile even when a theorem fails, so
     # that the correspondence still pinpoints the disagreeing type); GenProofs.v: the theorems
-    src = TR.emit_coq(tr).replace("Model.SchemaM.", "Model.SchemaM Model.DispatchM.", 1) + """
+    src = TR.emit_coq(tr).replace("Model.SchemaM.", "Model.SchemaM Model.SchemaHand Model.SchemaRun Model.DispatchM.", 1) + """
 (* members of dns.rdatatype.RdataType (what load_all_types walks) and the module set *)
 Definition rdatatype_members : list Z := [%s].
 Definition mods : list key := map (fun e => (e_class e, e_type e)) table.
+Definition hand_table : list (Z * Z * hid) := [%s].
 Definition run (c : obs) : obs :=
   match c with
   | L [I 22; L steps] =>
@@ -94,9 +95,10 @@ Definition run (c : obs) : obs :=
       | Some h => L (run_history mods rdatatype_members h init_state)
       | None => E eBadCase
       end
-  | _ => run_tbl table c
+  | _ => run_all table hand_table c
   end.
-""" % "; ".join(str(v) for v in tr["rdatatype_members"])
+""" % ("; ".join(str(v) for v in tr["rdatatype_members"]),
+       "; ".join(f"({t['rdclass']}, {t['rdtype']}, {TR.COQ_HAND[t['hand']]})" for t in tr["types"] if t["kind"] == "hand" and t["hand"] in TR.COQ_HAND))
     proofs = r"""From DV Require Import Base.Prelude Model.NameM Model.SchemaM Model.DispatchM Proofs.SchemaCodec Proofs.SchemaTable Proofs.SchemaOrigin Proofs.SchemaDispatch.
 From Scratch Require Import GenRdtypes.
 Open Scope Z_scope.
@@ -142,7 +144,7 @@ Print Assumptions gen_dispatch_history_correct.
     ppath = os.path.join(d, "GenProofs.v")
     with open(ppath, "w") as f:
         f.write(proofs)
-    lib.coq_make(["Proofs/SchemaOrigin.vo", "Proofs/SchemaDispatch.vo"])
+    lib.coq_make(["Proofs/SchemaOrigin.vo", "Proofs/SchemaDispatch.vo", "Model/SchemaRun.vo"])
     rc0, out0, _ = lib.run_cmd(["coqc", "-Q", lib.COQ, "DV", "-Q", d, "Scratch", path], timeout=900)
     rc, out, dt = (1, "table file did not compile:\n" + out0, 0) if rc0 != 0 else lib.run_cmd(["coqc", "-Q", lib.COQ, "DV", "-Q", d, "Scratch", ppath], timeout=900)
     thms = ["gen_table_ok", "gen_table_origin_exceptions", "gen_table_roundtrip", "gen_table_fixed_point", "gen_table_roundtrip_origin", "gen_dispatch_history_correct", "translation_closed"]
@@ -193,7 +195,7 @@ def T():
 
 def model_has(rdclass, rdtype):
     t = T().lookup(rdclass, rdtype)
-    return t is None or t["kind"] == "schema"
+    return t is None or t["kind"] == "schema" or (t["kind"] == "hand" and t["hand"] in TR.COQ_HAND)
 
 
 def pick_origin(rng, mode):
@@ -283,7 +285,7 @@ def dec_case(cl, ty, wire, cur, rdlen, o):
 
 
 def enc_case(t, cl, vals, o):
-    op = 1 if t["kind"] == "schema" else 11
+    op = 1 if t["kind"] == "schema" or t.get("hand") in TR.COQ_HAND else 11
     return "enc", [op, cl, t["rdtype"], vals, o]
 
 
@@ -783,7 +785,7 @@ def norm_vals(t, vals):
     """value normalisation that the codec is allowed to perform (still an equal record)"""
     if t["kind"] == "hand" and t["hand"] == "apl":
         # unknown address families: trailing zero octets of the address are trimmed on the wire
-        return [[f, n, a if f in (1, 2) else bytes(a).rstrip(b"\0"), p] for f, n, a, p in vals]
+        return [[[f, n, a if f in (1, 2) else bytes(a).rstrip(b"\0"), p] for f, n, a, p in vals[0]]]
     return vals
 
 
